@@ -30,6 +30,8 @@ CLAIMED = {
          'mru IndexError (F2) excluded from completed-iff-counted', '5 C15'),
  'C16': ('Klepto.C16: a raising miss is literally a no-op with one evaluation; safe key failures evaluate once and return; single evaluation always; ' + W,
          'the Python handler structure (exception in an except-handler is not caught by a sibling bare except) is encoded in the model and checked by correspondence', '5 C16'),
+ 'C17': ('Klepto.C17 (thin: noninterference of the model in hash seed and process state; keyword order via C09_flat; second session via C02): decided mainly by suite `session`: the same generated calls keyed in fresh interpreters with PYTHONHASHSEED in {0,1,4242,random}, different process noise and permuted keyword order must give byte-identical keys for raw/string/pickle/named-hash keymaps x flat x typed x sentinel x ignore; writer session -> exit -> reader session over file/dir/sqlite archives must load, not miss; plus suite `keys` for the key structure',
+         'encoders (repr, pickle, hashlib) are runtime facts exercised only by the suite; non-flat encoded keys leak keyword order (F11, listed); hashmap() with the builtin hash is outside the property', '5 C17'),
  'C18': ('Klepto.C18: lookup is pure and returns the resident value or KeyError; lookups invisible to later behaviour; key is the slot of the call (thin: one key function in the model); ' + W + ' incl. f.key()/f.lookup() interleavings invisible to the model; suite `round`: key(args) is the slot of the call under tol/deep for all 12 decorators',
          'the 36 duplicated key sites are compared behaviourally (f.key vs. key stored by the call), not proved equal', '5 C18'),
  'C19': ('Klepto.C19: validate (model of the code) succeeds exactly when CPython binding (bind, the specification) succeeds, for every plain signature without keyword-only parameters (any params, defaults, *args, **kw) and every call; validate has no access to the function; ' + KS + '; isvalid/validate verdicts vs. really binding the underlying function, and a call counter inside every generated function',
@@ -51,7 +53,7 @@ m = dict(version=1, setup_cmd='cd lean && lake build',
      baseline_off_cmd='cd /repo && /venv/bin/python -m pytest -ra -q -p no:cacheprovider --timeout=900 --continue-on-collection-errors', source_commits=[], add_only=True),
   engines=[dict(name='lean-proof+correspondence', path='check', serves_properties=sorted(CLAIMED), kind_free_text='Lean 4 model + theorems (lean/), Python correspondence harness (harness/), JSON-lines Lean driver (lean_exe driver)')],
   checks=checks,
-  notes='work in progress: properties move from not_applicable to checks as their models, theorems and suites are built; fix commits in /repo: 04a9e64 (F25)',
+  notes='work in progress: properties move from not_applicable to checks as their models, theorems and suites are built; fix commits in /repo: 04a9e64 (F25), b3a2d87 (F16), 63609ed (F24)',
   not_applicable=[dict(property_id=p['id'], reason='not yet built in this revision (planned: DESIGN.md section 5); no verdict is claimed') for p in props if p['id'] not in CLAIMED])
 json.dump(m, open('/verif/MANIFEST.json', 'w'), indent=1)
 print('claimed', sorted(CLAIMED))
